@@ -164,7 +164,7 @@ def parse_contract(lines, fnrec, unit_name):
             if m:
                 cur['before'].append(m.group(1))
                 continue
-            m = re.match(r'^(invariant|decreases|ensures|invariant_except_break)\s*(.*)$', s)
+            m = re.match(r'^(invariant_except_break|invariant|decreases|ensures)\s*(.*)$', s)
             if m:
                 sub = m.group(1)
                 rest = m.group(2).strip()
@@ -275,10 +275,10 @@ def emit_fn(asm, fnrec, sig, body, contract, ret_name):
                 body = body[:kwpos + am.start()] + body[kwpos + am.end():]
                 ob -= am.end() - am.start()
             ins = ''
-            if L['invariant']:
-                ins += '\n        invariant\n' + ''.join('            %s,\n' % x for x in L['invariant'])
             if L['inv_except_break']:
                 ins += '\n        invariant_except_break\n' + ''.join('            %s,\n' % x for x in L['inv_except_break'])
+            if L['invariant']:
+                ins += '\n        invariant\n' + ''.join('            %s,\n' % x for x in L['invariant'])
             if L['ensures']:
                 ins += '\n        ensures\n' + ''.join('            %s,\n' % x for x in L['ensures'])
             if L['decreases']:
@@ -727,6 +727,13 @@ def assemble(unit_path, repo=REPO):
                 rw.note('havoc-guards', 1)
             for old, new in contract['bodyrep']:
                 if old not in body:
+                    # same text with different line breaks / indentation?
+                    toks_ = old.split()
+                    pat_ = r'\s*'.join(re.escape(t_) for t_ in toks_)
+                    if toks_ and re.search(pat_, body):
+                        body = re.sub(pat_, lambda m_: new, body)
+                        asm.manual.append('%s: %r => %r (white space insensitive)' % (fnrec.key, old, new))
+                        continue
                     # the construct this rewrite was written for is gone: nothing to rewrite; the verifier decides on what is there
                     asm.manual.append('%s: rewrite %r not applicable (text absent)' % (fnrec.key, old))
                     continue
